@@ -121,6 +121,10 @@ func main() {
 		os.Exit(2)
 	}
 	name := os.Args[1]
+	if name == "crashchild" {
+		crashChildMain(os.Args[2:])
+		return
+	}
 	fs := flag.NewFlagSet("vharness", flag.ExitOnError)
 	seed := fs.Int64("seed", 1, "PRNG seed")
 	tier := fs.String("tier", "quick", "quick|thorough")
